@@ -6,6 +6,7 @@ from vlib.core import Outcome, fail, sut, is_raised, Finding
 from vlib import typegen as tg
 from vlib import mat, layout, assign
 from vlib import placement as pl
+from vlib import cbuild
 from checks import c01
 
 ID = "C03"
@@ -175,7 +176,18 @@ def run_case(case):
         if len(b1) > len(b0):
             b0 = b0 + bytes([pl.POISON]) * (len(b1) - len(b0))
         newly = [(o, o + s) for o, s in tr.allocated_since(m0)]
-        bad = [i for i in pl.diff_positions(b0, b1) if not inside(i, own) and not inside(i, newly)]
+        allowed = own
+        if op["kind"] in ("rebind", "null") and r[1]:
+            # assigning to a reference slot: the slot's own words and the objects newly created for it - not the
+            # object referred to so far (it may be shared, part of another object or held by the user)
+            try:
+                sspec, saddr = layout.locate(spec, b0, off, cbuild.layout_steps(r[1]))
+            except layout.LayoutError as e:
+                return fail("undecodable", str(e), e.clause, labels)
+            if saddr is not None:
+                allowed = [(saddr, saddr + (16 if sspec["k"] == "unionref" else 8))]
+                labels.add("rebind_judged_against_slot_only")
+        bad = [i for i in pl.diff_positions(b0, b1) if not inside(i, allowed) and not inside(i, newly)]
         if bad:
             return fail("assignment_wrote_outside", f"{op['kind']}: bytes {bad[:8]} changed; object regions {own}, newly allocated {newly}", op["kind"], labels)
         own += newly
